@@ -11,6 +11,32 @@ import (
 var extraCmds = map[string]func(in string){}
 
 func runOracle(oracle string, c *Case, lean *LeanDriver) Verdict {
+	switch oracle {
+	case "opt":
+		return optCase(c, lean)
+	case "rangeinst":
+		return rangeInstCase(c, lean)
+	case "procs":
+		return procsCase(c, lean)
+	case "hints":
+		return hintsCase(c, lean)
+	case "dist":
+		return distCase(c, lean)
+	case "fallback":
+		return fallbackCase(c, lean)
+	case "faults":
+		return faultsCase(c, lean)
+	case "panic":
+		return panicCase(c, lean)
+	case "cancel":
+		return cancelCase(c, lean)
+	case "lifecycle":
+		return lifecycleCase(c, lean)
+	case "sequence":
+		return seqCase(c, lean)
+	case "concurrent":
+		return concurrentCase(c, lean)
+	}
 	return Verdict{ID: c.ID, Query: c.Query, Oracle: oracle, Skipped: "unknown oracle"}
 }
 
@@ -18,6 +44,9 @@ func dispatch(cmd, in, out string, seed int64, n int, prof, oracle string, worke
 	switch cmd {
 	case "worker":
 		runWorker(oracle)
+		return true
+	case "child-panic":
+		runChildPanic(n)
 		return true
 	case "run":
 		runSupervisor(oracle, in, out, workers)
